@@ -70,6 +70,10 @@ A_OPT_T = _uniq(A_OPT + A_TRIPLE_T + STRUCTURED + [
                                           repeat=2)])
 
 # quick-tier reductions
+A_PAIR_Q = _uniq(strings_upto(SIGMA_Q, 1)
+                 + [''.join(t) for t in itertools.product(SIGMA_8[:7],
+                                                          repeat=2)]
+                 + STRUCTURED)
 A_TRIPLE_Q = [x for x in A_TRIPLE if x not in ('1a', 'c-d', 'a ', '12')]
 A_OPT_Q = A_OPT[:34]
 
